@@ -22,6 +22,14 @@ culprit field the minimal set of *features* whose removal makes it agree names t
 flatten-mid-path-call, custom __format__ with empty spec -> flatten-ignores-custom-format).  If the
 whole format still disagrees after all culprit fields are neutralised, or a culprit has no such
 explanation, the generic key flatten-text-mismatch / json-text-mismatch is reported as well.
+
+Empty field texts: values that are NOT JSON-native (exceptions raised without arguments, objects whose
+__str__ / __repr__ return "") and whose text is the empty string are generated as fields, container
+elements and call results.  The text captured when the event was flattened is "" and must stay "" after
+poisoning and after the JSON round trip (where the structured value has become the JSON image of an
+unpersistable object).  A culprit field whose original text is "" and which no known feature explains is
+reported under flatten-empty-field-text-lost / json-empty-field-text-lost.  Counter
+fields_nonnative_value_with_empty_text proves such fields are compared.
 """
 LEVEL = "exploration"
 ENGINE = "core"
@@ -32,7 +40,8 @@ RULE = ("random type-aware format strings over the event's own keys: attribute/i
         "...) and in the middle of a path; conversions !r !s !a; format "
         "specs valid for the value's type (width, precision, type codes, fill/align, nested {w}); repeated "
         "fields; literal braces; values: ints, floats, strs (non-ASCII, braces, surrogates), bytes, None, "
-        "bools, nested containers, objects with deterministic __str__/__repr__/__format__, pure callables, values and "
+        "bools, nested containers, objects with deterministic __str__/__repr__/__format__, non-JSON-native values whose "
+        "str (and sometimes repr) is the EMPTY string (argument-less exceptions, objects with __str__ -> ''), pure callables, values and "
         "callables whose str / repr / call flattens and formats ANOTHER event re-entrantly (placed between repeated fields "
         "of the outer format, the nested event using the same field names).  "
         "Distinct = (format string, value recipe); non-trivial = at least one field.")
@@ -42,7 +51,8 @@ SHARDS = {"quick": 4, "thorough": 16}
 FLOORS = {"compared_flat": 5000, "compared_json": 5000, "compared_decoration": 5000, "fields_total": 10000,
           "fields_repeated": 500, "fields_with_path": 3000, "fields_end_call": 300, "poisoned_values": 5000,
           "agree": 3000, "repeated_counter_calls": 50, "fields_terminal_call_after_index_path": 800, "fields_path_3plus": 1500,
-          "reentrant_flatten_between_repeats": 1500, "fields_with_wrapper_colliding_attribute_names": 1500}
+          "reentrant_flatten_between_repeats": 1500, "fields_with_wrapper_colliding_attribute_names": 1500,
+          "fields_nonnative_value_with_empty_text": 300}
 READY = True
 
 
@@ -79,6 +89,26 @@ class Obj:
         if self._fmt == "custom":
             return "F<%s|%s>" % (self._name, spec)
         return format(str(self), spec)
+
+
+class Quiet:
+    """Not JSON-native, deterministic, str() is the empty string; repr() is empty too when asked."""
+
+    def __init__(self, emptyrepr):
+        self._emptyrepr = emptyrepr
+
+    def __str__(self):
+        return ""
+
+    def __repr__(self):
+        return "" if self._emptyrepr else "Quiet<>"
+
+    def __format__(self, spec):
+        return format(str(self), spec)
+
+
+EXCS = {"ValueError": ValueError, "ConnectionError": ConnectionError, "KeyError": KeyError, "Exception": Exception,
+        "RuntimeError": RuntimeError}
 
 
 def _nested_text(names, mode):
@@ -119,6 +149,10 @@ def build(r):
         return lambda names=r[1], mode=r[2]: "C<%s>" % _nested_text(names, mode)
     if k in ("int", "str"):
         return r[1]
+    if k == "quiet":
+        return Quiet(r[1])
+    if k == "exc":
+        return EXCS[r[1]]()   # raised-without-arguments exception: str() == "", repr() == "Name()"
     if k == "float":
         return float(r[1])
     if k == "bytes":
@@ -171,6 +205,9 @@ DKEYS = ["k", "key", "a1", "x", "main-table", "a b", "value", "__slots__"]
 def g_value(rng, depth=0, inside=False):
     """inside=True: element of a list/tuple/dict, whose str() shows the element's repr: no callables
     there (a function's repr contains its address: not deterministic)."""
+    if rng.random() < 0.07:
+        # not JSON-native and the text is empty ("request failed: {error}" with error=ValueError())
+        return ["quiet", rng.randrange(2)] if rng.random() < 0.5 else ["exc", rng.choice(sorted(EXCS))]
     c = rng.randrange(14 if depth < 3 else 8)
     if inside and c == 11:
         c = 0
@@ -311,7 +348,7 @@ def g_field(rng, keys, recipes):
         spec = rng.choice(["", "", "d", ">6"])
     elif k == "float":
         spec = rng.choice(FLOAT_SPECS)
-    elif k == "str" or k == "level" or k == "reflat" or (k == "obj" and final[2] == "plain"):
+    elif k == "str" or k == "level" or k == "reflat" or k == "quiet" or (k == "obj" and final[2] == "plain"):
         spec = rng.choice(STR_SPECS) if k != "level" else ""
     elif k == "obj":
         spec = rng.choice(ANY_SPECS)
@@ -326,7 +363,8 @@ def g_field(rng, keys, recipes):
         spec = ""
         conv = "" if conv == "a" else conv
     custom = (k == "obj" and final[2] == "custom" and not conv)
-    return {"name": key + path, "shape": shape, "counter": is_counter, "conv": conv, "spec": spec, "mid": mid, "ncalls": ncalls, "custom": custom, "haspath": bool(path)}
+    return {"name": key + path, "shape": shape, "counter": is_counter, "conv": conv, "spec": spec, "mid": mid, "ncalls": ncalls, "custom": custom, "haspath": bool(path),
+            "emptytext": k in ("quiet", "exc")}
 
 
 def ftext(f, conv=None, spec=None):
@@ -558,6 +596,10 @@ def check_case(ctx, case, idx=None):
             ctx.count("repeated_counter_calls")
         if f["haspath"]:
             ctx.count("fields_with_path")
+        if f.get("emptytext"):
+            ctx.count("fields_nonnative_value_with_empty_text", uses.get(i, 0))
+            if f["ncalls"]:
+                ctx.count("fields_nonnative_empty_text_from_call")
         if f["ncalls"] and not f["mid"]:
             ctx.count("fields_end_call")
         if f["mid"]:
@@ -594,6 +636,13 @@ def check_case(ctx, case, idx=None):
                           "a mid-path-call field formats differently after flattening/JSON, but not by flattenEvent raising on the '()' name", w)
             continue
         ex = explain_field(case, f)
+        if ex is None and a == "" and not (b if b != "" else c).startswith(("Unable to format", "MESSAGE LOST", "RAISED")):
+            # the field's own text is the empty string in the original, but not after flattening / JSON
+            override[i] = "U"
+            ctx.violation("flatten-empty-field-text-lost" if b != "" else "json-empty-field-text-lost",
+                          "a field whose text is the empty string (captured as '' when the event was flattened) renders as "
+                          "something else after flattening / the JSON round trip", w)
+            continue
         if ex is None:
             override[i] = "U"
             ctx.violation("flatten-text-mismatch" if a != b else "json-text-mismatch",
